@@ -56,6 +56,8 @@ theorem acqCLoop_ok (p all ws got) : (acqCLoop p all ws got).ok p := by
   cases ws
   · exact callLoop_ok ..
   · simp [acqCLoop, Next.ok, K.pool]
+theorem acqWLoop_ok (p ws acc) : (acqWLoop p ws acc).ok p := by
+  cases ws <;> simp [acqWLoop, Next.ok, K.pool]
 theorem acqCIter_ok (p all rest got) : (acqCIter p all rest got).ok p := by
   unfold acqCIter; split
   · exact acqCLoop_ok ..
@@ -108,6 +110,7 @@ theorem resume_ok (k : K) (b : Bool) : (resume k b).ok k.pool := by
     · exact acqCIter_ok ..
   · exact acqCIter_ok ..
   · exact callLoop_ok ..
+  · exact acqWLoop_ok ..
 
 theorem start_ok (pw : Pid → List Wid) (op : Op) : (start pw op).ok op.pool := by
   cases op <;> simp only [start, Op.pool]
@@ -122,6 +125,8 @@ theorem start_ok (pw : Pid → List Wid) (op : Op) : (start pw op).ok op.pool :=
   · exact aliveLoop_ok ..
   · split <;> simp [Next.ok, K.pool]
   · exact acqCLoop_ok ..
+  · simp [Next.ok, K.pool]
+  · exact acqWLoop_ok ..
 
 theorem apply_KOK (th : Thread) (n : Next) (q : Pid) (hn : n.ok q) :
     ∀ cl k, (th.apply n).cur = some (cl, k) → KOK cl k ∧ k.pool = q := by
@@ -189,6 +194,8 @@ theorem acqCLoop_todo (p q all ws got) : (acqCLoop q all ws got).todo p = none :
   cases ws
   · exact callLoop_todo ..
   · simp [acqCLoop, Next.todo, pendingRel]
+theorem acqWLoop_todo (p q ws acc) : (acqWLoop q ws acc).todo p = none := by
+  cases ws <;> simp [acqWLoop, Next.todo, pendingRel]
 theorem acqCIter_todo (p q all rest got) : (acqCIter q all rest got).todo p = none := by
   unfold acqCIter; split
   · exact acqCLoop_todo ..
@@ -246,6 +253,7 @@ theorem resume_todo (p : Pid) (k : K) (b : Bool) :
     · exact acqCIter_todo ..
   · exact acqCIter_todo ..
   · exact callLoop_todo ..
+  · exact acqWLoop_todo ..
 
 theorem start_todo (pw : Pid → List Wid) (p : Pid) (op : Op) (l : List Wid)
     (h : (start pw op).todo p = some l) : l = pw p := by
@@ -264,6 +272,8 @@ theorem start_todo (pw : Pid → List Wid) (p : Pid) (op : Op) (l : List Wid)
   · rw [aliveLoop_todo] at h; exact absurd h (by simp)
   · split at h <;> simp [Next.todo, pendingRel] at h
   · rw [acqCLoop_todo] at h; exact absurd h (by simp)
+  · simp [Next.todo, pendingRel] at h
+  · rw [acqWLoop_todo] at h; exact absurd h (by simp)
 
 /-- How one step inside `release` moves towards the write. -/
 def RelOut (cl : Call) (W' : Wid → Worker) : Out → Prop
